@@ -279,6 +279,10 @@ namespace glm
 		detail::float_t<float> const a(x);
 		detail::float_t<float> const b(y);
 
+		// The bit patterns are sign-magnitude: values of opposite sign are separated by zero
+		if(a.negative() != b.negative())
+			return (a.i & std::numeric_limits<int>::max()) + (b.i & std::numeric_limits<int>::max());
+
 		return abs(a.i - b.i);
 	}
 
@@ -286,6 +290,10 @@ namespace glm
 	{
 		detail::float_t<double> const a(x);
 		detail::float_t<double> const b(y);
+
+		// The bit patterns are sign-magnitude: values of opposite sign are separated by zero
+		if(a.negative() != b.negative())
+			return (a.i & std::numeric_limits<int64>::max()) + (b.i & std::numeric_limits<int64>::max());
 
 		return abs(a.i - b.i);
 	}
